@@ -4,6 +4,8 @@ calls) from the source TEXT into the Lean expression language `Fc.NExpr/NStmt` (
 Anything the translator does not understand raises TranslationError: the run then counts as
 "proof obligation broken" (the tie between source and theorem is lost), never as a pass."""
 from __future__ import annotations
+
+PROPERTIES = ['C01']   # properties whose proofs depend on these declarations
 import ast
 
 
